@@ -88,7 +88,7 @@ NodeRec(n) ==
          IF r.mode = "force" THEN [b EXCEPT !.q = Mix(b.q, r.q2)] ELSE [b EXCEPT !.dd = Mix(b.dd, r.q2)]
 
 -----------------------------------------------------------------------------
-RECURSIVE Eval(_, _), Validate(_, _), KeysOf(_, _), Explain(_, _)
+RECURSIVE Eval(_, _), Validate(_, _), KeysOf(_, _), Explain(_, _), Lazy(_, _)
 
 \* evaluate a sequence of nodes in order; first failure wins
 EvalSeq(ns, o) ==
@@ -147,6 +147,7 @@ DsWithQ(nd) == [force |-> TRUE, q |-> nd.q]
 DsSelect(nd, o2) ==
     IF nd.disp = 0
     THEN IF nd.dflt = 0 THEN Fail("Switch", {}, "") ELSE [ok |-> TRUE, n |-> nd.dflt, dep |-> FALSE]
+    ELSE IF Lazy(nd.disp, o2) THEN IllTyped      \* a one-shot iterator is no dispatch value
     ELSE LET dv == Eval(nd.disp, o2) IN
          IF ~dv.ok THEN (IF nd.dflt = 0 \/ dv.cls = "IllTyped" THEN dv ELSE [ok |-> TRUE, n |-> nd.dflt, dep |-> FALSE])
          ELSE IF ~Hashable(dv.v) THEN IllTyped
@@ -208,7 +209,8 @@ Eval(n, o) ==
                  IF tgt = 0 THEN UserErr("bindfn") ELSE Eval(tgt, o)
       [] nd.k = "switch" ->
             LET dv == Eval(nd.d, o) IN
-            IF ~dv.ok THEN (IF nd.dflt = 0 \/ dv.cls = "IllTyped" THEN dv ELSE Eval(nd.dflt, o))
+            IF Lazy(nd.d, o) THEN IllTyped      \* a one-shot iterator (Iter / Map) is no dispatch value
+            ELSE IF ~dv.ok THEN (IF nd.dflt = 0 \/ dv.cls = "IllTyped" THEN dv ELSE Eval(nd.dflt, o))
             ELSE IF ~Hashable(dv.v) THEN IllTyped
             ELSE LET hit == TabFind(nd.lk, dv.v) IN
                  IF hit # 0 THEN Eval(hit, o)
@@ -307,7 +309,8 @@ Validate(n, o) ==
                       IF tgt = 0 THEN UserErr("bindfn") ELSE Validate(tgt, o)
       [] nd.k = "switch" ->
             LET dv == Eval(nd.d, o) IN
-            IF ~dv.ok THEN (IF nd.dflt = 0 \/ dv.cls = "IllTyped" THEN dv ELSE Validate(nd.dflt, o))
+            IF Lazy(nd.d, o) THEN IllTyped      \* a one-shot iterator (Iter / Map) is no dispatch value
+            ELSE IF ~dv.ok THEN (IF nd.dflt = 0 \/ dv.cls = "IllTyped" THEN dv ELSE Validate(nd.dflt, o))
             ELSE IF ~Hashable(dv.v) THEN IllTyped
             ELSE LET hit == TabFind(nd.lk, dv.v) IN
                  IF hit # 0 THEN Validate(hit, o)
@@ -390,7 +393,8 @@ KeysOf(n, o) ==
                       IF tgt = 0 THEN UserErr("bindfn") ELSE UnionK(<<ks, KeysOf(tgt, o)>>)
       [] nd.k = "switch" ->
             LET dv == Eval(nd.d, o) IN
-            IF ~dv.ok THEN (IF nd.dflt = 0 \/ dv.cls = "IllTyped" THEN dv ELSE KeysOf(nd.dflt, o))
+            IF Lazy(nd.d, o) THEN IllTyped      \* a one-shot iterator (Iter / Map) is no dispatch value
+            ELSE IF ~dv.ok THEN (IF nd.dflt = 0 \/ dv.cls = "IllTyped" THEN dv ELSE KeysOf(nd.dflt, o))
             ELSE IF ~Hashable(dv.v) THEN IllTyped
             ELSE LET hit == TabFind(nd.lk, dv.v)
                      tgt == IF hit # 0 THEN hit ELSE nd.dflt IN
@@ -476,7 +480,8 @@ Explain(n, o) ==
                       IF tgt = 0 THEN UserErr("bindfn") ELSE UnionK(<<ks, Explain(tgt, o)>>)
       [] nd.k = "switch" ->
             LET dv == Eval(nd.d, o) IN
-            IF ~dv.ok THEN (IF dv.cls = "IllTyped" THEN dv ELSE IF nd.dflt = 0 THEN Insufficient ELSE Explain(nd.dflt, o))
+            IF Lazy(nd.d, o) THEN IllTyped      \* a one-shot iterator (Iter / Map) is no dispatch value
+            ELSE IF ~dv.ok THEN (IF dv.cls = "IllTyped" THEN dv ELSE IF nd.dflt = 0 THEN Insufficient ELSE Explain(nd.dflt, o))
             ELSE IF ~Hashable(dv.v) THEN IllTyped
             ELSE LET hit == TabFind(nd.lk, dv.v)
                      tgt == IF hit # 0 THEN hit ELSE nd.dflt IN
@@ -510,7 +515,8 @@ Explain(n, o) ==
       [] nd.k = "map" ->
             LET cs == MapCombos(nd, o)
                 ik == ExplainSeq([i \in 1 .. Len(nd.its) |-> nd.its[i].n], o) IN
-            IF ~cs.ok
+            IF ~cs.ok /\ cs.cls = "IllTyped" THEN cs
+            ELSE IF ~cs.ok
             THEN \* iterables undeterminable: static fallback = inner's keys minus the mapped keys
                  LET inner == Explain(nd.inner, o) IN
                  IF ~inner.ok \/ ~ik.ok THEN (IF ~inner.ok THEN inner ELSE ik)
@@ -654,6 +660,22 @@ Dem(n, o) ==
 \* a coalesce on the evaluation path drops a member that validates but then fails to evaluate
 \* (a raising body, a value outside its domain): keys()/validate() follow the validating member,
 \* evaluate() the next one -- the key-related invariants are stated for evaluations without this
+\* Likewise a switch (or a dataset's overload dispatch) that takes its DEFAULT because the dispatch could not be
+\* evaluated: keys() then reports the default's keys only, although the outcome still depends on whatever made the
+\* dispatch fail (a present value outside its domain, a raising body, an unmatched inner switch, a missing option
+\* that is only needed because of a present one).  labrea has no way to report the keys of a computation that
+\* failed, so no key set over present options is sufficient there (TLC: KeysSufficient fails on family mapswitch
+\* without this precondition).  The one fallback that reads nothing is a bare Option without default whose key
+\* is absent; every other failed dispatch with a default is flagged.
+BareMissing(m, o) == LET r == NodeRec(m) IN r.k = "opt" /\ r.d = 0 /\ ~Has(r.p, o)
+FallsBack(x) ==
+    LET nd == NodeRec(x.n) IN
+    \/ nd.k = "switch" /\ nd.dflt # 0 /\ ~BareMissing(nd.d, x.o) /\
+          LET dv == Eval(nd.d, x.o) IN ~dv.ok /\ dv.cls # "IllTyped"
+    \/ nd.k = "ds" /\ nd.disp # 0 /\ nd.dflt # 0 /\
+          LET o2 == DsOptions(nd, x.o) dv == Eval(nd.disp, o2) IN
+          ~BareMissing(nd.disp, o2) /\ ~dv.ok /\ dv.cls # "IllTyped"
+
 Swallows(n, o) ==
     \E x \in Visit(n, o) :
         LET nd == NodeRec(x.n) IN
@@ -661,6 +683,20 @@ Swallows(n, o) ==
         \E i \in 1 .. Len(nd.ms) :
             /\ \A j \in 1 .. i - 1 : ~(Validate(nd.ms[j], x.o).ok /\ Eval(nd.ms[j], x.o).ok)
             /\ Validate(nd.ms[i], x.o).ok /\ ~Eval(nd.ms[i], x.o).ok
+
+\* ... and a coalesce that moves past a member that cannot be evaluated (for any reason other than being a bare
+\* absent Option) reports the keys of the member it ends up with only
+SkipsMember(x) ==
+    LET nd == NodeRec(x.n) IN
+    nd.k = "coalesce" /\
+    \E i \in 1 .. Len(nd.ms) - 1 :
+        /\ \A j \in 1 .. i : ~(Validate(nd.ms[j], x.o).ok /\ Eval(nd.ms[j], x.o).ok)
+        /\ ~BareMissing(nd.ms[i], x.o)
+        /\ LET v == Validate(nd.ms[i], x.o) IN v.ok \/ v.cls # "IllTyped"
+
+\* evaluations in which a failure was recovered from: no key set over present options can be sufficient for them
+\* (C03 / C01 are stated without them; what the real code does there is the known finding class `recovered-failure`)
+KeyBlind(n, o) == Swallows(n, o) \/ \E x \in Visit(n, o) : FallsBack(x) \/ SkipsMember(x)
 
 \* C10: the nodes that validate(n, o) EVALUATES (not merely validates): only what is needed to choose a
 \* branch -- switch / overload dispatches, bind and case sources, case conditions, Map iterables -- and a
@@ -719,7 +755,6 @@ ValRuns(n, o) ==
 \* iterator (a body / apply function consumes the iterators it is given, so its result is not lazy).  A cache
 \* that stores a lazy value hands out an exhausted iterator the second time: what re-evaluation then yields is
 \* outside every statement, and the conformance step skips histories on graphs where CachesLazy holds.
-RECURSIVE Lazy(_, _)
 Lazy(n, o) ==
     LET nd == NodeRec(n)
         Sel(m) == IF m = 0 THEN FALSE ELSE Lazy(m, o) IN
